@@ -199,6 +199,13 @@ struct Check {
       vec2 a = pos[tr[0]], b = pos[tr[1]], c = pos[tr[2]];
       double ar = (b.x - a.x) * (c.y - a.y) - (b.y - a.y) * (c.x - a.x);
       double base2 = std::max({la::dot(b - a, b - a), la::dot(c - a, c - a), la::dot(c - b, c - b)});
+      if (ar < 0 && ar * ar > base2 * eff * eff) {
+        // known finding F50: two consecutive input vertices closer than epsilon (a near-duplicate) at a reflex
+        // corner can make the ear clipper emit a clockwise triangle of real size
+        bool nearDup = false;
+        for (auto& pl : idx) for (size_t q = 0; q < pl.size(); ++q) { vec2 u = pl[q].pos, w = pl[(q + 1) % pl.size()].pos; if (la::dot(u - w, u - w) <= eps * eps) nearDup = true; }
+        if (nearDup) { o.known("F50-triangulate-near-duplicate-cw", std::string("tri:cw-near-duplicate"), verif::fmt("triangle (%d,%d,%d) is clockwise: area2=%.6g eps=%.3g", tr[0], tr[1], tr[2], ar, eps)); return false; }
+      }
       if (ar < 0 && ar * ar > base2 * eff * eff) { o.fail(std::string("tri:cw-") + tag, verif::fmt("triangle (%d,%d,%d) is clockwise beyond 2*eps: area2=%.6g base=%.6g eps=%.3g", tr[0], tr[1], tr[2], ar, std::sqrt(base2), eps)); return false; }
       area2 += ar;
       for (int k = 0; k < 3; ++k) edges[{tr[k], tr[(k + 1) % 3]}]++;
